@@ -16,7 +16,7 @@ Local Open Scope Z_scope.
 
 (* ------------------------------------------------------------------ chart data *)
 
-Definition num := str.
+Notation num := str (only parsing).
 
 Inductive label := LStr (s : str) | LNum (t : num) | LDate (y m d : Z).
 Inductive cat_tree := CatNode (l : label) (subs : list cat_tree).
@@ -325,7 +325,7 @@ Definition has_cat_axis (ptag : N) : bool :=
     parsed): one plot, series idx = order = position.  Errors: unknown type
     (NotImplementedError) and data of the wrong family (AttributeError) are [OtherErr];
     pie without a series is [IndexErr]; non-uniform category depth is [ValueErr]. *)
-Definition write (ct : Z) (d : chart_data) : res chart :=
+Definition write_core (ct : Z) (d : chart_data) : res chart :=
   match writer_of ct with
   | None => Err OtherErr
   | Some (wk, ptag, pre, post) =>
@@ -369,6 +369,23 @@ Definition write (ct : Z) (d : chart_data) : res chart :=
                 end
       end
   end.
+
+(** The area, bar and line writers paste categories.number_format into the formatCode
+    attribute of c:dateAx/c:numFmt when the categories are dates; a double quote in it
+    ends the attribute value and the template no longer parses (XMLSyntaxError). *)
+Definition date_axis_breaks (ct : Z) (d : chart_data) : bool :=
+  match writer_of ct, d with
+  | Some (WCatPlain, ptag, _, _), DCat ((CatNode l _ :: _) as f) fmt _ =>
+      has_cat_axis ptag && is_date_label l
+      && match forest_depth f with
+         | Some 1%nat => memN 34%N (cats_number_format f fmt 1)
+         | _ => false
+         end
+  | _, _ => false
+  end.
+
+Definition write (ct : Z) (d : chart_data) : res chart :=
+  bind (write_core ct d) (fun c => if date_axis_breaks ct d then Err OtherErr else Ok c).
 
 (* ------------------------------------------------------------------ series order *)
 
